@@ -120,7 +120,7 @@ static uint64_t region_code (const unsigned char *b, int bw, int big)
 }
 static void region_fields (int h)
 {	SF_PRIVATE *p = P (h) ; VIO_MEM *m = &stores [hstore [h]] ;
-	if (hroute [h] != 'v' || p->bytewidth <= 0 || p->dataoffset < 0 || p->dataoffset > m->len) return ;
+	if (hroute [h] == 'e' || p->bytewidth <= 0 || p->dataoffset < 0 || p->dataoffset > m->len) return ;
 	int bw = p->bytewidth, big = p->endian == SF_ENDIAN_BIG ;
 	sf_count_t n = p->sf.frames * p->sf.channels, avail = (m->len - p->dataoffset) / bw ;
 	if (n > avail) n = avail ;
@@ -176,6 +176,11 @@ static void store_digests (int sid, sf_count_t dataoffset)
 		(unsigned long long) fnv (FNV0, m->data, off), (unsigned long long) fnv (FNV0, m->data + off, m->len - off)) ;
 }
 
+/* sequential-decode reference per handle and caller type (C06 oracle) */
+static void *refbuf [NHANDLE][4] ; static long long reflen [NHANDLE][4] ;
+static int tindex (char t) { return t == 's' ? 0 : t == 'i' ? 1 : t == 'f' ? 2 : 3 ; }
+static void ref_clear (int h) { for (int k = 0 ; k < 4 ; k++) { free (refbuf [h][k]) ; refbuf [h][k] = NULL ; reflen [h][k] = 0 ; } }
+
 static void *guarded_alloc (size_t bytes)
 {	unsigned char *b = malloc (bytes + 2 * GUARD) ;
 	memset (b, GB, bytes + 2 * GUARD) ;
@@ -217,7 +222,14 @@ static void do_open (void)
 	hstore [h] = sid ;
 	if (! handles [h])
 	{	const char *e = sf_strerror (NULL) ;
-		printf ("%d open ok=0 err=%d msg=%d\n", lineno, sf_error (NULL), e && e [0] ? 1 : 0) ;
+		printf ("%d open ok=0 err=%d msg=%d", lineno, sf_error (NULL), e && e [0] ? 1 : 0) ;
+		if (route == 'd' && hfd [h] >= 0)
+		{	/* close_desc was TRUE: a failed sf_open_fd must not leave the descriptor open */
+			int alive = fcntl (hfd [h], F_GETFD) != -1 ;
+			printf (" fdalive=%d", alive) ; if (alive) close (hfd [h]) ; hfd [h] = -1 ;
+			} ;
+		if (route != 'v') { char path [512] ; store_path (sid, path, sizeof (path)) ; unlink (path) ; }
+		printf ("\n") ;
 		return ;
 		}
 	SF_PRIVATE *p = P (h) ;
@@ -234,6 +246,7 @@ static void do_close (void)
 {	int h = tokll (1) ;
 	if (! handles [h]) { printf ("%d close nohandle=1\n", lineno) ; return ; }
 	sf_count_t off = P (h)->dataoffset ;
+	ref_clear (h) ;
 	int r = sf_close (handles [h]) ; handles [h] = NULL ;
 	printf ("%d close ret=%d", lineno, r) ;
 	if (hroute [h] != 'v')
@@ -271,6 +284,7 @@ static void do_rw (int writing)
 	long long alloc = items > 0 ? items : 0 ;
 	void *buf = guarded_alloc (alloc * tsize (t)) ;
 	sf_count_t ret ;
+	long long rpos_before = P (h)->read_current ;
 	if (writing)
 	{	fill_values (t, buf, alloc, 5) ;
 		void *copy = malloc (alloc * tsize (t) + 1) ; memcpy (copy, buf, alloc * tsize (t)) ;
@@ -294,12 +308,22 @@ static void do_rw (int writing)
 			}
 		long long got = var == 'f' ? ret * ch : ret ;
 		if (got < 0) got = 0 ; if (got > alloc) got = alloc ;
+		int refok = -1 ;
+		if (refbuf [h][tindex (t)])
+		{	long long start = rpos_before * ch ;
+			long long cmpn = got ;
+			/* items of a trailing partial frame (pad / terminator byte decoded as data) lie beyond the reference: C05's business */
+			if (start >= 0 && start <= reflen [h][tindex (t)] && start + cmpn > reflen [h][tindex (t)] && start + cmpn < reflen [h][tindex (t)] + ch)
+				cmpn = reflen [h][tindex (t)] - start ;
+			refok = (start >= 0) && (start + cmpn <= reflen [h][tindex (t)]) && memcmp ((char *) refbuf [h][tindex (t)] + start * tsize (t), buf, cmpn * tsize (t)) == 0 ;
+			} ;
 		/* tail: z = all zero, u = untouched (still guard pattern), m = mixed */
 		int allz = 1, allu = 1 ; unsigned char *b = (unsigned char *) buf + got * tsize (t) ;
 		for (long long k = 0 ; k < (alloc - got) * tsize (t) ; k++) { if (b [k] != 0) allz = 0 ; if (b [k] != GB) allu = 0 ; }
 		printf ("%d r ret=%lld", lineno, (long long) ret) ; pos_fields (h) ;
 		printf (" dig=%016llx tail=%c guard=%d", (unsigned long long) digest_items (t, buf, got), alloc == got ? '-' : allz ? 'z' : allu ? 'u' : 'm',
 			guard_ok (buf, alloc * tsize (t))) ;
+		if (refok >= 0) printf (" refok=%d", refok) ;
 		if (got <= 24) { printf (" vals=") ; for (long long k = 0 ; k < got ; k++) { if (k) printf (",") ; print_item (t, buf, k) ; } }
 		}
 	check_invariants (h) ;
@@ -440,6 +464,30 @@ int main (int argc, char **argv)
 		else if (! strcmp (op, "rr")) do_raw (0) ;
 		else if (! strcmp (op, "rw")) do_raw (1) ;
 		else if (! strcmp (op, "seek")) do_seek () ;
+		else if (! strcmp (op, "ref"))
+		{	/* ref <h> <T>: one sequential read of the whole file as type T through a SECOND handle on a copy of the
+			   store's bytes (the handle under test is not disturbed); kept as the reference stream for h */
+			int h = tokll (1) ; char t = toks [2][0] ;
+			if (! handles [h]) { printf ("%d ref nohandle=1\n", lineno) ; continue ; }
+			VIO_MEM tmp ; memset (&tmp, 0, sizeof (tmp)) ;
+			vio_set (&tmp, stores [hstore [h]].data, stores [hstore [h]].len) ;
+			SF_INFO ri ; memset (&ri, 0, sizeof (ri)) ;
+			if (SF_CONTAINER (P (h)->sf.format) == SF_FORMAT_RAW) { ri = P (h)->sf ; }
+			SNDFILE *rf = sf_open_virtual (&vio_mem_io, SFM_READ, &ri, &tmp) ;
+			if (! rf) { printf ("%d ref open=0\n", lineno) ; vio_free (&tmp) ; continue ; }
+			long long n = ri.frames * ri.channels ; if (n < 0) n = 0 ;
+			free (refbuf [h][tindex (t)]) ;
+			void *b = calloc (n + 1, tsize (t)) ; sf_count_t got = 0 ;
+			switch (t)
+			{	case 's' : got = sf_read_short (rf, b, n) ; break ;
+				case 'i' : got = sf_read_int (rf, b, n) ; break ;
+				case 'f' : got = sf_read_float (rf, b, n) ; break ;
+				default : got = sf_read_double (rf, b, n) ; break ;
+				} ;
+			sf_close (rf) ; vio_free (&tmp) ;
+			refbuf [h][tindex (t)] = b ; reflen [h][tindex (t)] = got ;
+			printf ("%d ref items=%lld got=%lld dig=%016llx", lineno, n, (long long) got, (unsigned long long) digest_items (t, b, got)) ; pos_fields (h) ; printf ("\n") ;
+			}
 		else if (! strcmp (op, "store")) do_store () ;
 		else if (! strcmp (op, "info")) do_info () ;
 		else if (! strcmp (op, "cmd")) do_cmd () ;
